@@ -20,6 +20,9 @@ for every attribute and every class of value it can take (including the values n
 whose ONLY effective change is that attribute while a non-default pen is in force -- once by chpen {attr}, once by setpen of the
 whole logical pen with that attribute replaced: such a request must leave everything else on the terminal as it is.  The
 members of the sweep that run into a known finding are, again, placed at the end.
+About 30% of the x configurations run with an output buffer (`outbuf n`, n in 1..256, issued right after construction while nothing
+is pending) and `flush` after a request with probability 0.3 and at the end; half of them start with a short chpen that stays
+pending followed by a setpen whose SGR string is long and takes the attribute back.  No pause + resume in those histories.
 Tiers: quick, thorough (x10), exhaustive (every history of <= 3 requests over a pen basis, for every configuration).
 """
 import argparse, random, json, itertools, collections
@@ -277,6 +280,7 @@ def word():
     return "".join(rng.choice(WORDCH) for _ in range(n))
 
 
+P_FLUSH = 0.3       # with an output buffer: probability that a request is followed by tickit_term_flush
 GROUP = 1           # logical histories per protocol history (`renew` = fresh terminal inside a history; the framework now batches forks itself)
 group_fill = [0]
 
@@ -301,7 +305,11 @@ def _new_line(cfg, grouped=False):
 def random_cfg(kind=None):
     kind = kind or rng.choice(["x", "x", "g", "g", "g"])
     if kind == "x":
-        return {"kind": "x", "colors": 256, "rgb8": rng.randint(0, 1), "colon": rng.randint(0, 1), "how": rng.choice(["reply", "reply", "ctl"])}
+        c = {"kind": "x", "colors": 256, "rgb8": rng.randint(0, 1), "colon": rng.randint(0, 1), "how": rng.choice(["reply", "reply", "ctl"])}
+        if rng.random() < 0.3:
+            # the library collects its output in a buffer (smaller or larger than an SGR string) and delivers it when full / on flush
+            c["outbuf"] = rng.choice([1, 4, 8, 12, 16, 16, 24, 32, 64, 256])
+        return c
     return {"kind": "g", "colors": rng.choice([8, 16, 88, 256]), "rgb8": rng.randint(0, 1), "colon": rng.randint(0, 1)}
 
 
@@ -329,18 +337,23 @@ def history(cfg, nops, allow, want=None, init=None, script=None):
         stats["start:pen-in-force"] += 1
     script = list(script or [])
     after_suspend = 0
+    buffered = cfg.get("outbuf")
+    if buffered:
+        out.append("outbuf %d" % buffered)
+        stats["outbuf:%d" % buffered] += 1
     for it in range(nops + len(script)):
         if script:
             is_set, p, kind = script.pop(0)
             if callable(p):
                 p = p(l)
-        elif not allow and rng.random() < P_SUSPEND:
+        elif not allow and not buffered and rng.random() < P_SUSPEND:
             is_set, p, kind = None, None, "suspend"
         elif not allow and rng.random() < P_PRINT:
             w = word()
             stats["op:print"] += 1
             stats["print:len<=8" if len(w) <= 8 else "print:len>8"] += 1
             out.append("print " + w)
+            if buffered and rng.random() < P_FLUSH: out.append("flush"); stats["op:flush"] += 1
             continue
         elif after_suspend and l and rng.random() < 0.7:
             # what follows a suspension: mostly requests that do not change the pen (they are skipped as 'already set', so
@@ -391,6 +404,9 @@ def history(cfg, nops, allow, want=None, init=None, script=None):
         for t1 in t: stats["trigger:" + t1] += 1
         out.append(("setpen " if is_set else "chpen ") + pen_text(p))
         l, prev = l2, p
+        if buffered and rng.random() < P_FLUSH: out.append("flush"); stats["op:flush"] += 1
+    if buffered and out[-1] != "flush":
+        out.append("flush"); stats["op:flush"] += 1
     if want and want not in seen:
         return False
     lines.append(new_line(cfg, grouped=not allow, init=init))
@@ -472,7 +488,12 @@ for cfg in [{"kind": "x", "colors": 256, "rgb8": r, "colon": c, "how": how} for 
     history(cfg, 2, set(), script=[(rng.random() < 0.5, heavy_pen(cfg, set()), "heavy")] + SUSP[:2])
 for _ in range(N):
     cfg = random_cfg()
-    history(cfg, rng.choice([3, 6, 10, 16, 24]), set(), init=nondefault_pen(cfg) if rng.random() < 0.25 else None)
+    script = None
+    if cfg.get("outbuf") and rng.random() < 0.5:
+        # a short request that stays pending in the output buffer, then one whose SGR string is long and takes it back
+        k = rng.choice(BOOLS)
+        script = [(False, {k: 1}, "buffered-short"), (True, nondefault_pen(cfg, avoid=k), "buffered-long")]
+    history(cfg, rng.choice([3, 6, 10, 16, 24]), set(), init=nondefault_pen(cfg) if rng.random() < 0.25 else None, script=script)
 
 
 # the sweep: one attribute changes, to every class of value, while a non-default pen is in force
